@@ -195,6 +195,28 @@ def gen_plan_c16(seed, index, tier="quick"):
             "env": [], "faults": [], "sweep": sweep, "sweep_n": (8 if index < n4 else 4) if tier == "quick" else 6}
 
 
+def gen_plan_c07_calls(seed, index, tier="quick"):
+    """Mostly well-formed call programs (1-2 transactions) swept over single abortable /
+    fatal / retriable faults: the histories of C16, judged here by the C07 oracles
+    (read-committed reader, protocol-order monitor)."""
+    r = scenario.rng_for(seed, "C07", "calls", index)
+    prog = []
+    for _ in range(r.choice([1, 2, 2])):
+        prog.append("begin")
+        for _ in range(r.randint(0, 3)):
+            prog.append(r.choice(["send0", "send1", "send0", "offsets"]))
+        prog.append(r.choice(["commit", "commit", "abort", "ctx_ok", "ctx_exc"]))
+    if r.random() < 0.2:
+        prog.insert(r.randrange(len(prog) + 1), r.choice(OPS))
+    plan = gen_plan_c16(seed, count_programs(6) + index, tier)
+    plan["prop"] = "C07"
+    plan["producers"][0]["calls"] = prog
+    plan["sweep"] = "all" if tier != "quick" else "sample"
+    plan["sweep_n"] = 6
+    plan["seed"] = scenario.subseed(seed, "C07", "calls", index)
+    return plan
+
+
 def single_faults(requests, r=None, limit=None):
     """All single faults applicable to the transactional requests a fault-free
     run of the program issued: (api, nth) x class-specific codes."""
